@@ -148,6 +148,32 @@ pub fn c03(args: &Args) -> Acc {
             if rng.chance(1, 40) {
                 px.clear();
             }
+            // rarely (Interface level only): one draw_iter call that paints 2^16 pixels or more,
+            // in one colour or in two halves (pixel counts held in 16 bits)
+            let mut cfg = cfg;
+            if l1 && !crate::small() && rng.chance(1, if args.quick() { 1500 } else { 6000 }) {
+                cfg.model = *rng.pick(&[ModelId::Ext256x256, ModelId::ILI9341Rgb565, ModelId::ST7789]);
+                if !cfg.tr.type_checks(cfg.model.bits()) || !cfg.model.supports(cfg.tr.kind()) {
+                    cfg.tr = Tr::L1S;
+                }
+                let (fw, fh) = cfg.model.fb();
+                cfg.w = fw;
+                cfg.h = fh;
+                cfg.ox = 0;
+                cfg.oy = 0;
+                let (lw, lh) = lsize(&cfg);
+                let w = lw.min(256);
+                let h = ((65_535 + rng.range(0, 3 * w)) / w).min(lh);
+                let (c1, c2) = (tags.one(), if rng.bool() { tags.one() } else { 0 });
+                px.clear();
+                for y in 0..h {
+                    for x in 0..w {
+                        px.push((x as i32, y as i32, if c2 != 0 && y >= h / 2 { c2 } else { c1 }));
+                    }
+                }
+                a.count("streams_of_2^16_pixels_or_more_in_one_or_two_colours", 1);
+            }
+            let cfg = cfg;
             let prog = vec![Op::DrawIter { pixels: px.clone() }];
             a.seen("models", cfg.model.name());
             a.seen("transports", cfg.tr.name());
